@@ -111,13 +111,17 @@ Q(id='C17.exact', props=['C17'], cls='B', harness='c17_msa_compare.c', entry='h_
   assumptions=[A_NOFAIL, A_WRAP, A_FLOAT, 'bounded: 2-3 rows, widths 2-4, symbols {A,c,-,.}; alignments passed in FINAL state (finalise_alignment is covered by C01)'])
 
 # =========================================================================== C11
-Q(id='C11.bpm', props=['C11'], cls='P', harness='c11_bpm.c', entry='h_c11_bpm', tier='thorough',
-  mode='dfcc', enforce=['bpm'], loop_contracts=True, loops_files=['bpm.bpm.loops'], unwind=70, timeout=3600, replayable=False,
-  solver=['--sat-solver', 'cadical'], mem_gb=24,
-  funcs=['bpm'], trusted=[TRUST_MSG],
-  assumptions=['text length 0..100000 (KV_MAXN, only bounds the size of the is_fresh object; the loop is closed by its invariant)',
-               'data invariant instance: each text symbol read is < 13 (internal codes of the distance alphabets, proved at convert_msa_to_internal: s[j] < L, L <= 13)',
-               'Sellers column recurrence (contracts/bpm.contracts.h) is taken as the definition of "minimum over all substrings of the edit distance"'])
+for _mm, _tier, _to in ((16, 'quick', 900), (63, 'thorough', 3600)):
+    Q(id='C11.bpm.m%d' % _mm, props=['C11'], cls='P', harness='c11_bpm.c', entry='h_c11_bpm', tier=_tier,
+      mode='dfcc', enforce=['bpm'], loop_contracts=True, loops_files=['bpm.bpm.loops'], unwind=70, timeout=_to, replayable=False,
+      pre_unwind={'bpm.0': 15, 'bpm.1': 66, 'kv_col_init.0': 67, 'kv_col_step.0': 66},
+      defs=['-DKV_MAXN=4096', '-DKV_BPM_MAXM=%d' % _mm],
+      solver=['--sat-solver', 'cadical'], mem_gb=24,
+      funcs=['bpm'], trusted=[TRUST_MSG],
+      assumptions=['pattern length 1..%d (the quantified clauses of the invariant expand to that many rows); text length symbolic 0..4096 (bounds only the size of the is_fresh object: the text loop is closed by its invariant, every iteration count)' % _mm,
+                   'data invariant instance: each text symbol read is < 13 (internal codes of the distance alphabets, proved at convert_msa_to_internal: s[j] < L, L <= 13)',
+                   'Sellers column recurrence (contracts/bpm.contracts.h) is taken as the definition of "minimum over all substrings of the edit distance"',
+                   'measured: 56 s for patterns <= 16, 677 s for patterns <= 63 (cadical)'])
 
 # =========================================================================== C01 / C10 weave
 def _lens_options(n, p):
@@ -364,8 +368,9 @@ PROPS['C03'] = dict(
     assumptions=['permutation-equivariance by composition is not machine-checked'])
 PROPS['C11'] = dict(
     level='other',
-    level_text=('bpm() (single 64-bit word, patterns 1..63) is proved equal to the Sellers column recurrence for ANY text length by a loop contract that ties the bit-vectors VP/VN, diff and k to a ghost DP column; '
-                'bpm_block (production path) is checked bounded against the same recurrence'),
+    level_text=('bpm() (single 64-bit word) is PROVED equal to the Sellers column recurrence for any text length by a loop contract that ties the bit-vectors VP/VN, diff and k to a ghost DP column '
+                '(patterns <= 16 in the quick tier, all patterns 1..63 in the thorough tier); calc_distance is proved to pass the longer sequence as text and to return the kernel value unchanged; '
+                'bpm_block (production path) is checked bounded against the same recurrence, including the 64-symbol block boundary'),
     level_note='bpm_256 (AVX2 intrinsics) is not verified; bpm_block only bounded in this round; text symbols < 13 assumed at the read site (data invariant from convert_msa_to_internal)',
     technique=T_CB + ' via goto-instrument --dfcc, loop contract over ghost state (DP column), constant-bound quantifier expanded by SAT (cadical)',
     explanation=EXPL_COMMON,
@@ -383,6 +388,7 @@ def _fasta_shapes(tier):
         [(H, 2), (A, 2)], [(H, 2), (G, 2)], [(H, 1), (N, 2)], [(H, 2), (B, 2)],
         [(H, 3), (H, 2)],                                       # empty record
         [(H, 2), (A, 3)],                                       # residue buffer grows (capacity 2)
+        [(H, 1), (A, 4)], [(H, 1), (A, 4), (G, 1)],             # two growth steps: the last slot of the re-allocated gap array is used
         [(H, 2), (A, 2), (G, 2)], [(H, 1), (G, 2), (A, 2)],
         [(H, 1), (A, 1), (H, 2), (A, 2)],                       # two records
         [(H, 1), (H, 1), (H, 1)],                               # record table grows (capacity 2)
@@ -588,3 +594,38 @@ PROPS['C02'] = dict(
 NOT_YET['C08'] = ('not applicable within this technique on this code: "identical inputs align without gaps" is a statement about the result of the whole recursive Hirschberg driver '
                   '(aln_runner / aln_continue mutual recursion with symbolic meeting points did not finish symbolic execution for a 2x3 problem, DESIGN 2.2), and no per-function contract implies it; '
                   'the component obligations that stand behind it are decided under C07 (kernels equal the recurrence, backward mirrors forward), C10/C01 (merge step) and C12 (upgma groups copies)')
+Q(id='C11.calc_distance', props=['C11', 'C12'], cls='P', harness='c11_calc_distance.c', entry='h_c11_calc_distance',
+  mode='wrap', unwind=4, timeout=300, funcs=['calc_distance'], native_srcs=['lib/src/tldevel.c', 'lib/src/msa_alloc.c', 'lib/src/alphabet.c', 'lib/src/tlmisc.c'],
+  trusted=[TRUST_MSG, 'bpm_block replaced by a recording stub with its contract (value in 0..1024; C11.bpm_block)'], assumptions=[A_WRAP])
+
+S(id='omp_distance_cells_private', props=['C02'], kind='absent_in_region', files=['lib/src/sequence_distance.c'], function='d_estimation', keep_pp=True,
+  after=r'#pragma omp parallel for[^\n]*collapse\(2\)', pattern=r'dm\s*\[(?!\s*i\s*\]\s*\[\s*j\s*\])',
+  text='distance matrix (omp parallel for, collapse(2), static): the loop body touches no cell of dm but its own dm[i][j] -- one writer per cell and no read of a cell written by another iteration')
+S(id='omp_distance_loop_present', props=['C02'], kind='order', files=['lib/src/sequence_distance.c'], function='d_estimation', keep_pp=True,
+  sequence=[r'#pragma omp parallel for shared\(dm, s\) private\(i, j\) collapse\(2\) schedule\(static\)', r'for\(i = 0; i < numseq;i\+\+\)', r'for\(j = 0;j < num_samples;j\+\+\)', r'dm\[i\]\[j\] = calc_distance\(s1,s2,l1,l2\)'],
+  text='distance matrix: the parallel loop is the collapse(2) static loop over (sequence, anchor) whose body assigns dm[i][j] from calc_distance of the two sequences')
+
+def _input_shapes(tier):
+    H, A, G, E = "'>'", "'A'", "'-'", "0"
+    sets = [
+        [(H, 2), (A, 2), (H, 2), (A, 2)],
+        [(E, 0), (H, 2), (A, 2), (H, 2), (A, 1)],              # blank first line
+        [(H, 2), (A, 2), (E, 0), (H, 2), (A, 2)],              # blank line between records
+    ]
+    if tier != 'quick':
+        sets += [[(H, 2), (A, 1), (A, 1), (H, 2), (G, 2), (A, 1)], [(E, 0), (E, 0), (H, 2), (A, 1), (H, 2), (A, 1)], [(H, 2), (A, 2)]]
+    out = []
+    for t in sets:
+        lens = [x[1] for x in t]
+        out.append(dict(name='lines_' + '_'.join('%s%d' % ({H: 'H', A: 'A', G: 'G', E: 'E'}[x[0]], x[1]) for x in t),
+                        defs=dict(KV_LINELENS='{' + ','.join(map(str, lens)) + '}', KV_LINEFIRST='{' + ','.join(x[0] for x in t) + '}'),
+                        unwind=max(len(t) + 3, 8)))
+    return out
+Q(id='C04.read_input', props=['C04', 'C05'], cls='B', harness='c04_read_input.c', entry='h_c04_read_input', shapes=_input_shapes,
+  mode='wrap', timeout=900, loops_files=['msa_alloc.shrink.loops', 'msa_io.shrink.loops', 'msa_io.inbuf.shrink.loops'], shrink=True, leak_check=False,
+  defs=['-DKV_CAP=4', '-DKV_SEQCAP=4', '-DKV_INCAP=7'], object_bits=11,
+  funcs=['kalign_read_input', 'read_file_stdin', 'detect_alignment_format', 'read_fasta', 'check_for_sequences', 'alloc_in_buffer', 'free_in_buffer', 'detect_aligned', 'set_sip_nsip'],
+  srcs=['lib/src/msa_alloc.c', 'lib/src/msa_op.c', 'lib/src/msa_misc.c', 'lib/src/alphabet.c', 'lib/src/tlmisc.c'], native_srcs=READER_NATIVE,
+  trusted=[TRUST_MSG, 'fopen/getline/fclose/my_file_exists: stubs that serve the lines of the shape', 'detect_alphabet: stub (own contract C13)', 'strstr/strnlen loop stubs, realloc byte-copy stub',
+           'R3 capacity shrink (line table 1024 -> 8, records 512 -> 4, residues 512 -> 8)'],
+  assumptions=[A_NOFAIL, A_WRAP, 'bounded: 4-6 lines of 0-2 bytes, first byte of each line concrete, others symbolic over {-,A,c,N}; FASTA only; one input file'])
